@@ -331,6 +331,10 @@ class Ctx:
     def expired(self) -> bool:
         return self.time_left() <= 0
 
+    def past(self, frac: float) -> bool:
+        """True once this share of the budget is used up: a phase that must leave time for the ones after it stops here."""
+        return (time.monotonic() - self.t0) >= frac * self.budget_s
+
     def mine(self, i: int) -> bool:
         """Static partition of an enumerated space over the workers."""
         return i % self.nworkers == self.worker
